@@ -12,6 +12,7 @@ PROP = {
         {"name": "codecs_enum", "mode": "enum"},
         {"name": "fixed", "quick": 3000000, "thorough": 30000000, "maxlen": 24},
         {"name": "codecs", "quick": 3500000, "thorough": 40000000, "maxlen": 80},
+        {"name": "codecs_long", "quick": 150000, "thorough": 1500000, "maxlen": 32},
     ],
     "fuzz": [{"name": "codecs", "secs": 60, "maxlen": 80}],
 }
